@@ -19,10 +19,10 @@ EXECS=$(grep -oE "Done [0-9]+ runs" $LOG | grep -oE "[0-9]+" | tail -1)
 [ -z "$EXECS" ] && EXECS=$(grep -oE "^#[0-9]+" $LOG | tr -d '#' | tail -1)
 COV=$(grep -oE "cov: [0-9]+" $LOG | tail -1 | grep -oE "[0-9]+")
 NCORP=$(ls $WORK | wc -l)
-python3 - "$ID" "$T" "${EXECS:-0}" "${COV:-0}" "$NCORP" "$((t1-t0))" "$rc" <<'PY'
+python3 - "${VERIF_EVIDENCE_DIR:-/verif/evidence}" "$ID" "$T" "${EXECS:-0}" "${COV:-0}" "$NCORP" "$((t1-t0))" "$rc" <<'PY'
 import json,sys
-i,t,execs,cov,ncorp,secs,rc=sys.argv[1:]
-p=f"/verif/evidence/{i}.json"
+evd,i,t,execs,cov,ncorp,secs,rc=sys.argv[1:]
+p=f"{evd}/{i}.json"
 try:
     e=json.load(open(p))
     e["coverage"].setdefault("fuzz",[]).append({"target":t,"engine":"libFuzzer (cargo-fuzz)","executions":int(execs),"edge_coverage":int(cov),"corpus_files_after":int(ncorp),"wall_s":int(secs),"crashed":rc!=0,"oracle":"the proptest check's oracle runs inside the target (panic = violation)"})
